@@ -2,6 +2,7 @@
 import re
 
 from report import Rule
+from rules.common import same
 from astlib import find_all, find_first, show, show_pat, quotes_in, tok_text, method_chain, walk, tok_find_seq, tok_walk, norm
 
 EXPLANATION = (
@@ -299,7 +300,7 @@ def r2_scoped(ctx):
         name = {"Display": "fmt", "serde::Serialize": "serialize", "serde::Deserialize": "deserialize"}[tr]
         fn = ast.fn(f, name, impl_self="ScopedLocale", impl_trait=tr)
         t = flat(show(fn.body)) if fn else ""
-        if t != want:
+        if not same(t, want):
             r.viol("R2:ScopedLocale::%s" % tr, "%s for ScopedLocale is `%s`, expected `%s`" % (tr, t, want), file=f)
         else:
             r.inst("ScopedLocale as " + tr, "delegates to the wrapped locale")
